@@ -228,6 +228,14 @@ Theorem setattr_reset_slotted_confused :
 Proof. exact setattr_reset_refuted. Qed.
 Print Assumptions setattr_reset_slotted_confused.
 
+(** ... and with two attrs bases in the order (slotted hook-free, unslotted hooked) it is the
+    dict build that does not reset (K08.4). *)
+Theorem setattr_reset_two_bases_counterexample :
+  exists i, i_wrote_own_setattr i = false /\ i_has_custom_setattr i = false /\
+            dict_reset i = false /\ slots_reset i = true.
+Proof. exact setattr_reset_two_bases_refuted. Qed.
+Print Assumptions setattr_reset_two_bases_counterexample.
+
 (** ** Correspondence *)
 Theorem correspondence_sound : forall b,
   check_case (CBody b) = true <-> c_seen b = model_obs b /\ (post_ok b = true \/ c_flagged b = true).
